@@ -4,7 +4,8 @@ import itertools
 from mc import pool, words, parser_engine as E
 from . import parser_common as PC
 
-CHARS = ["a", '"', "\\", ",", "[", "]", " ", "\n", "é", "#", ";", "\r", "\u2028"]
+# e + U+0301 and U+212B: text that Unicode normalisation would rewrite (values are octets; bytes and str input must agree)
+CHARS = ["a", '"', "\\", ",", "[", "]", " ", "\n", "é", "#", ";", "\r", "\u2028", "e\u0301", "\u212b"]
 REQ = 'require ["fileinto","reject","vacation","variables","imap4flags","envelope"];\n'
 SLOTS = [
     ("single", 'redirect %s;'),
@@ -48,6 +49,8 @@ def ladder_cases(top):
     for k in range(3, top + 1):
         for L in (2 ** k - 1, 2 ** k, 2 ** k + 1):
             yield quote((unit * (L // len(unit) + 1))[:L])
+    for dup in (('"a"', '"a"'), ('"a"', '"b"', '"a"'), ('"a"', '"a"', '"b"'), ('""', '""'), ('"x, y"', '"z"', '"x, y"')):
+        yield ", ".join(dup)  # members equal to one another (the last one repeating an earlier one)
     for n in range(2, 41):
         yield ", ".join(quote("m%d, x" % i) for i in range(n))
         yield ",".join(quote("Doe, John <j%d@example.org>" % i) for i in range(n))
